@@ -12,12 +12,15 @@ Step(ev) ==
     [] ev.op = "reset"  -> Reset(ev.h)
     [] ev.op = "close"  -> Close /\ ev.err = "nil"
     [] ev.op = "remaining" -> UNCHANGED buf /\ ev.ret = Remaining
+    [] ev.op \in {"flush", "open"} -> UNCHANGED buf /\ ev.err = "nil"      \* no life cycle: nothing to flush, always open
+    [] ev.op = "isopen" -> UNCHANGED buf /\ ev.ret = 1
     [] OTHER -> UNCHANGED buf
 \* both handles observe the same state after the step
 Views(ev) == ev.vb.bytes = buf' /\ ev.vb.len = Len(buf') /\ ev.vt.rem = Len(buf')
 
 EvOK(ev) ==
   CASE ev.k = "dt"  -> ev.rem = GenericRemaining(ev.readable)
+    [] ev.k = "dtlife" -> ev.isopen /\ ev.allnil /\ ev.remsame
     [] ev.k = "reg" -> /\ ev.ret = RegistryResult(ev.registered, ev.cbret)
                        /\ ev.registered => ev.argok
                        /\ ~ev.panic
